@@ -1,7 +1,7 @@
 """C11 — declared filter compensation = ripasso inverse filter on the forged waveform."""
 import numpy as np
 
-from core import enc, q
+from core import enc, q, dec_val
 from gen import SeqGen
 
 ID = "C11"
@@ -60,6 +60,43 @@ def post_check(ops, ri, rm):
                         continue
                     if not np.array_equal(np.asarray(a[ch][name]), np.asarray(b[ch][name])):
                         return f"position {pos}.{p2} channel {ch!r} array {name} differs between filters on and off"
+    # independent reference: the documented inverse RC filter (transfer function H^-order on the fft grid,
+    # H(0) = 1) evaluated here with numpy on the unfiltered delayed waveform -- does not call broadbean.ripasso
+    spec = {}
+    seq_sr = None
+    for o, r in zip(ops, ri):
+        if o["op"] == "sq.setFilter" and o.get("id") == "s" and "ok" in r:
+            fc = float(dec_val(o["f_cut"])) if o.get("f_cut") is not None else 1 / float(dec_val(o["tau"]))
+            spec[str(o["ch"])] = (o["kind"], int(o["order"]), fc)
+        if o["op"] == "sq.setSR" and o.get("id") == "s" and "ok" in r:
+            seq_sr = float(dec_val(o["v"]))
+    if seq_sr is None:
+        return None
+    for pos in off:
+        for p2 in off[pos]["content"]:
+            a, b = off[pos]["content"][p2]["data"], on[pos]["content"][p2]["data"]
+            for ch in a:
+                if str(ch) not in spec or "wfm" not in a[ch]:
+                    continue
+                kind, order, fc = spec[str(ch)]
+                x = np.asarray(a[ch]["wfm"], dtype=float)
+                y = np.asarray(b[ch]["wfm"], dtype=float)
+                N = len(x)
+                f = np.fft.fftfreq(N, 1 / seq_sr)
+                w = 2j * np.pi * f / fc
+                h = w / (1 + w) if kind == "HP" else 1 / (1 + w)
+                if kind == "HP":
+                    h[0] = 1.0
+                with np.errstate(all="ignore"):
+                    H = h ** (-order)
+                if not np.all(np.isfinite(H)):
+                    continue
+                ref = np.fft.ifft(np.fft.fft(x) * H).real
+                scale = max(1e-300, float(np.max(np.abs(ref))), float(np.max(np.abs(x))))
+                gain = max(1.0, float(np.max(np.abs(H))))
+                if y.shape != ref.shape or float(np.max(np.abs(y - ref))) > 1e-9 * gain * N * scale:
+                    return (f"C11-ref: position {pos}.{p2} channel {ch!r}: delivered waveform differs from the documented inverse "
+                            f"{kind} filter of order {order}, f_cut {fc}, DC gain 1 at SR {seq_sr} by {float(np.max(np.abs(y - ref))):.3e}")
     return None
 
 
